@@ -64,6 +64,7 @@ class Ctx:
 
     def case(self, key, nontrivial: bool = True):
         self.cases += 1
+        self._last_nontrivial = bool(nontrivial)
         if nontrivial:
             self.hashes.add(key if isinstance(key, int) else h64(key))
 
@@ -77,8 +78,16 @@ class Ctx:
             s.append(value)
 
     def sample(self, obj, limit=3):
+        """keep a few written-out cases, preferring non-trivial ones"""
+        nt = getattr(self, "_last_nontrivial", True)
+        flags = self.__dict__.setdefault("_sample_nt", [])
         if len(self.samples) < limit:
             self.samples.append(obj)
+            flags.append(nt)
+        elif nt and False in flags:
+            i = flags.index(False)
+            self.samples[i] = obj
+            flags[i] = True
 
     def violation(self, what: str, case, detail=None, mechanism: str | None = None):
         v = {"what": what, "case": case, "detail": detail}
